@@ -31,6 +31,8 @@ ASSUMPTIONS = ['bounded pre-emption: an interference needing three or more preci
                'CPython threads can be pre-empted between any two bytecodes, so every node-evaluation or line boundary is a legitimate switch point']
 
 STUCK_S = 30
+FORCE_S = 3        # no scheduling point for this long while other threads are parked: hand the token on
+BLOCKED_S = 25     # the only thread left makes no progress for this long: blocked for good
 
 
 class Stuck(Exception):
@@ -54,6 +56,8 @@ class Scheduler:
         self.switches = []         # (global step, from, to)
         self.steps = 0
         self.stuck = False
+        self.blocked = False
+        self.forced = []           # switches forced by the progress watchdog
         self.lock = threading.Lock()
 
     # -- called by the harness
@@ -155,8 +159,36 @@ def run_schedule(jobs, segments=None, rng=None, p_switch=0.0, line_points=False)
         for t in threads:
             t.start()
         sched.start()
-        for t in threads:
-            t.join(STUCK_S * 2)
+        # progress watchdog: the thread holding the token may block inside the engine (a lock). If threads are parked at
+        # scheduling points, one of them may be the holder of that lock: it gets the token (a forced switch). If every other
+        # thread has finished and the one left makes no progress for BLOCKED_S, it is blocked for good.
+        last = (-1, -1)
+        since = time.monotonic()
+        while any(t.is_alive() for t in threads):
+            for t in threads:
+                t.join(0.05)
+            now = (sched.steps, sum(sched.done))
+            if now != last:
+                last, since = now, time.monotonic()
+                continue
+            idle = time.monotonic() - since
+            parked = [i for i in range(n) if not sched.done[i] and i != sched.current]
+            if idle > FORCE_S and parked:
+                nxt = parked[0]
+                sched.forced.append((sched.steps, sched.current, nxt))
+                sched.current = nxt
+                sched.sems[nxt].release()
+                since = time.monotonic()
+            elif idle > BLOCKED_S and not parked:
+                blocked = [i for i in range(n) if not sched.done[i]]
+                frames = sys._current_frames()
+                import traceback
+                for i in blocked:
+                    ident = next((k for k, v in tids.items() if v == i), None)
+                    stack = ''.join(traceback.format_stack(frames[ident])[-6:]) if ident in frames else ''
+                    results[i] = ('blocked', stack)
+                sched.blocked = True
+                break
     finally:
         mon.point_hook = None
         if tool is not None:
@@ -236,6 +268,11 @@ STATEMENTS = {
     'ctx-funcs': ('SELECT account, convert(position, "USD") AS c, value(position) AS v, getprice(currency, "USD") AS p, account_sortkey(account) AS k, '
                   'possign(number, account) AS g, open_date(account) AS o, currency_meta(currency, "name") AS m ORDER BY date, account, number', None),
     'ctx-agg': ('SELECT account_sortkey(account) AS k, convert(sum(position), "USD") AS c, value(sum(position)) AS v GROUP BY 1 ORDER BY 1', None),
+    # statements that are refused, or that raise part-way through: the other thread is not to notice
+    'bad-params': ('SELECT date WHERE account ~ %(acc)s AND number > %(num)s', {'acc': 'Assets'}),
+    'bad-params2': ('SELECT date, account, number WHERE number > %s AND currency = %s ORDER BY date, account, number', [10]),
+    'bad-column': ('SELECT nosuch, account', None),
+    'runtime-fail': ('SELECT balance, date_add(date, 99999999 * (year - 2018)) AS x', None),
     'open-close-rows': ('SELECT date, narration, account, position, balance FROM OPEN ON 2019-07-01 CLOSE ON 2020-07-01 CLEAR', None),
     'close-count': ('SELECT year, count(*) AS n, sum(position) AS s FROM CLOSE ON 2020-03-01 GROUP BY year ORDER BY year', None),
     'balances': ('BALANCES AT cost FROM year = 2020', None),
@@ -247,7 +284,8 @@ STATEMENTS = {
 PAIRS = [('bal2', 'bal1'), ('bal2', 'bal3'), ('bal3', 'subq-in'), ('units-bal', 'journal'), ('agg', 'agg-year'), ('agg', 'agg'), ('subq-from', 'subq-in'),
          ('param-a', 'param-b'), ('named', 'param-a'), ('open-close', 'close'), ('open-close', 'bal2'), ('balances', 'journal'), ('distinct', 'entries'),
          ('pivot', 'agg'), ('bal2', 'bal2'), ('close', 'bal1'), ('open-close', 'open-close-rows'), ('close', 'close-count'), ('open-close', 'open-close'), ('div', 'div-agg'), ('div-agg', 'bal2'),
-         ('ctx-funcs', 'ctx-funcs'), ('ctx-funcs', 'ctx-agg'), ('balances', 'balances')]
+         ('ctx-funcs', 'ctx-funcs'), ('ctx-funcs', 'ctx-agg'), ('balances', 'balances'),
+         ('bad-params', 'param-b'), ('bad-params2', 'named'), ('runtime-fail', 'bal2'), ('bad-column', 'agg'), ('bad-params', 'bad-params2')]
 
 
 def make_job(conn, text_or_ast, params):
@@ -310,6 +348,12 @@ def check_schedule(ctx, jobs, serial, segments, rng, p_switch, label, case, line
     preemptions = sum(1 for s in sched.switches) - (len(jobs) - 1)
     sig = (label, tuple(sched.switches))
     ctx.case(sig, preemptions >= 1)
+    ctx.count('obs.forced_switches', len(sched.forced))
+    if sched.blocked:
+        i = next(k for k, r in enumerate(results) if r and r[0] == 'blocked')
+        ctx.violation('c20.thread_blocked_forever', f'{label}: every other thread has finished and thread {i} made no progress for {BLOCKED_S} s '
+                      f'(serially it returns at once); it is waiting in:\n{results[i][1]}', dict(case, schedule={'segments': segments, 'switches': sched.switches[:40]}))
+        return sched
     if sched.stuck or any(r == ('stuck',) for r in results):
         ctx.count('inconclusive.scheduler_stuck')
         ctx.notes.append(f'scheduler stuck on {label}')
